@@ -12,7 +12,7 @@ RULE = ('(1) S-LRU: get/set/clear histories (5-40 ops, keys incl. 1/True/-1/-2) 
         'of the sorted ids, the materialised shard and a rebuilt pipeline listing the ids in another order execute nothing; '
         '(3) S-CACHE histories (see C04) with the memoisation oracle: a repeated (field, key) behind an unbounded RAM cache or '
         'a disk cache (same or rebuilt object) and the `size` most recently used keys of a bounded RAM cache execute nothing '
-        'upstream, and no bounded cache holds more than size entries. distinct_nontrivial counts distinct histories/cases')
+        'upstream, and no bounded cache holds more than size entries; one CacheToRam(size=k) layer object composed into two pipelines keeps a bounded cache per pipeline (using one does not evict the other\'s k most recent keys). distinct_nontrivial counts distinct histories/cases')
 
 
 def _shard(args):
@@ -21,7 +21,8 @@ def _shard(args):
     b = suite_lru.run_shard_shard((seed, per * 10))
     c = suite_lru.run_columns_shard((seed, max(2, per // 3)))
     d = suite_cache.run_shard((seed, per))
-    return a, b, c, d
+    e = suite_lru.run_shared_ram((seed, max(3, per // 2)))
+    return a, b, c, d, e
 
 
 def run(tier, seed, res, lean):
@@ -45,9 +46,12 @@ def run(tier, seed, res, lean):
         res.violations.append(Violation('c08-shards', b['msg'][:300], {'suite': 'S-COL', **b}))
     for b in col_problems[:4]:
         res.violations.append(Violation('c08-columns', b['msg'][:300], {'suite': 'S-COL', **b}))
+    shared_bad = [b for o in outs for b in o[4][1]]
+    for b in shared_bad[:3]:
+        res.violations.append(Violation('c08-shared-layer', b['msg'][:300], {'suite': 'S-LRU', **b}))
     for b in c08_bad[:4]:
         res.violations.append(Violation('c08-memo', b['failures'][0]['msg'][:300], {'suite': 'S-CACHE', **b}))
-    found = lru_over or shard_oracle or col_problems or c08_bad
+    found = lru_over or shard_oracle or col_problems or c08_bad or shared_bad
     corr = (lru_bad[:1] and ('S-LRU', lru_bad[0])) or (shard_bad[:1] and ('S-COL', shard_bad[0])) or \
         (model_bad[:1] and ('S-CACHE', model_bad[0]))
     if corr and not found:
